@@ -539,6 +539,8 @@ def write_evidence(check, tier, seed, stats, wall, n_viol):
         cov[k] = v
     for k, v in stats.get("extra", {}).items():
         cov[k] = v
+    for k, v in stats.get("sets", {}).items():
+        cov[k] = len(v)
     ev = {
         "property_id": check.prop,
         "tier": tier,
@@ -663,6 +665,8 @@ def main(check, check_file):
             stats["probes"][k] = stats["probes"].get(k, 0) + v
         for k, v in res.get("cov", {}).items():
             stats["cov"][k] = stats["cov"].get(k, 0) + v
+        for name, items in res.get("sets", {}).items():
+            stats.setdefault("sets", {}).setdefault(name, set()).update(items)
         for v in res.get("violations", []):
             f = match_finding(v, check.prop, findings)
             if f:
@@ -672,8 +676,11 @@ def main(check, check_file):
                     new_violations.append((sc, v))
 
     run_forked(check, gen(), workers=workers, timeout=getattr(check, "scenario_timeout", 300), on_result=on_result)
+    finish_error = None
     if hasattr(check, "finish"):
-        stats["extra"].update(check.finish(stats) or {})
+        extra = check.finish(stats) or {}
+        finish_error = extra.pop("__harness_error__", None)
+        stats["extra"].update(extra)
 
     exit_code = EXIT_OK
     n_viol = 0
@@ -684,6 +691,9 @@ def main(check, check_file):
         if res.get("trace"):
             print(res["trace"])
         print("scenario: " + jdump(sc)[:2000])
+        exit_code = EXIT_HARNESS
+    if finish_error:
+        print(f"HARNESS-ERROR property={check.prop} {finish_error}")
         exit_code = EXIT_HARNESS
     # distinct new violation keys, shrink + confirm each (bounded)
     by_key = {}
